@@ -499,6 +499,22 @@ def _start_coverage(chk):
         return None
 
 
+def _ranges(nums) -> str:
+    """[3,4,5,9] -> '3-5,9'"""
+    out, start, prev = [], None, None
+    for n in sorted(nums):
+        if start is None:
+            start = prev = n
+        elif n == prev + 1:
+            prev = n
+        else:
+            out.append(f"{start}-{prev}" if prev > start else f"{start}")
+            start = prev = n
+    if start is not None:
+        out.append(f"{start}-{prev}" if prev > start else f"{start}")
+    return ",".join(out)
+
+
 def _stop_coverage(chk, cov):
     if cov is None:
         return
@@ -508,7 +524,8 @@ def _stop_coverage(chk, cov):
         for f in _anchor_files(chk.prop):
             try:
                 _, stmts, _, missing, _ = cov.analysis2(str(REPO / f))
-                out[f] = {"statements": len(stmts), "executed": len(stmts) - len(missing)}
+                out[f] = {"statements": len(stmts), "executed": len(stmts) - len(missing),
+                          "missing_lines": _ranges(missing)}
             except Exception:  # noqa  (file never imported)
                 out[f] = {"statements": None, "executed": 0}
         chk.extra_cov["anchored_statement_coverage"] = out
